@@ -250,6 +250,16 @@ def run_identify(g, X, Y, *, via="identify", conditions=None, pref=None, forms=N
     ident = None
     q_before = None
     args, args_before = {}, {}
+    # non-termination guard (mutation campaign B, mutant g03): a run-away recursion of ID / IDC costs ~1000 graph
+    # rebuilds per call before Python's own limit stops it, and shrinking repeats that hundreds of times.  The real
+    # recursion is shallow (measured: at most 26 Python frames below this one for graphs with up to 8 nodes, one frame
+    # per algorithm line), so the limit is lowered to this frame + 100 + 10 per node for the duration of the call.
+    frame, depth = sys._getframe(), 0
+    while frame is not None:
+        depth += 1
+        frame = frame.f_back
+    old_limit = sys.getrecursionlimit()
+    sys.setrecursionlimit(min(old_limit, depth + 100 + 10 * len(G.all_nodes(g))))
     try:
         if via == "identify_outcomes":
             args = {"X": F.varset(Xl, fm["X"]), "Y": F.varset(Yl, fm["Y"])}
@@ -283,6 +293,7 @@ def run_identify(g, X, Y, *, via="identify", conditions=None, pref=None, forms=N
         res["exc"] = type(e).__name__
         res["exc_msg"] = str(e)[:200]
     finally:
+        sys.setrecursionlimit(old_limit)
         lines, tape, r2, pp = _state["lines"], _state["topo"], _state["rule2"], _state["pp"]
         _state["lines"], _state["topo"], _state["rule2"], _state["pp"] = None, None, None, None
     mutated = None
@@ -733,7 +744,17 @@ def example_corpus(max_nodes=8):
     """(name, g, X, Y) for every example of y0.examples that carries identification queries, plus the
     bare graphs with all single-treatment / single-outcome queries for the small ones"""
     C.use_repo()
-    from y0 import examples as ex
+    try:
+        from y0 import examples as ex
+    except Exception as e:  # noqa: BLE001 - mutation campaign B, mutant u09: y0.examples builds Identification objects at
+        # import time, so a change in identify/utils.py can make the import itself raise.  That must not abort the check
+        # before a single case ran (exit 1 without a VIOLATION line): the corpus part is skipped, loudly, and the
+        # generated stream (which drives the same constructors inside run_identify's try block) names the failing input.
+        if not _state.get("examples_error"):
+            _state["examples_error"] = f"{type(e).__name__}: {str(e)[:200]}"
+            print(f"NOTE: y0.examples cannot be imported on this tree ({_state['examples_error']}); the example corpus is skipped",
+                  flush=True)
+        return []
 
     out = []
     seen = set()
